@@ -128,6 +128,9 @@ type World struct {
 	chanElems     []types.Type
 	guardedMaps   []*types.Map
 	lockMemo  map[*ssa.Function]int
+	snapTypes map[string]map[string]bool   // package|variable name -> types it had in the snapshot
+	ckeyAlias map[string]string            // current contract key of a function -> the key its contract was written under
+	renames   map[string]map[string]string // function -> (name in the contracts -> current name), pure renames only
 	blockMemo     map[*ssa.Function]int
 }
 
@@ -195,6 +198,7 @@ func loadWorld(repo string) (*World, error) {
 			w.contractFiles = append(w.contractFiles, f)
 		}
 	}
+	w.loadRenames()
 	return w, nil
 }
 
@@ -275,7 +279,10 @@ func (w *World) inlinable(fn *ssa.Function) bool {
 }
 
 func (w *World) contractFor(fn *ssa.Function) *Contract {
-	return w.contracts[fnKey(fn)]
+	if ct := w.contracts[fnKey(fn)]; ct != nil || len(w.ckeyAlias) == 0 {
+		return ct
+	}
+	return w.contracts[w.contractKeyOf(fn)]
 }
 
 // funcTypeContract: the `functype <Name>` contract of a named function type.
@@ -813,6 +820,14 @@ func (w *World) findFuncs(key string) []*ssa.Function {
 				continue
 			}
 			cands = append(cands, fn)
+		}
+	}
+	if len(cands) == 0 && len(w.ckeyAlias) > 0 {
+		// the function was renamed since the contracts were written
+		for fn := range w.allFuncs {
+			if fn.Blocks != nil && w.contractKeyOf(fn) == key && fnKey(fn) != key {
+				cands = append(cands, fn)
+			}
 		}
 	}
 	sort.Slice(cands, func(i, j int) bool { return cands[i].String() < cands[j].String() })
